@@ -519,6 +519,42 @@ pub fn structured(ctx: &Ctx, entries: &[String], seed: u64, nbases: usize, max_p
                     }
                 }
             }
+            // amplification: a count-like item at its largest value, a nearby string item repeated until the datagram is full,
+            // nothing after it (a reply that announces far more than it carries: C13)
+            {
+                let countish = |k: &str, ty: &str| k == "lit" || (k == "f" && (ty.starts_with("dec_") || matches!(ty, "u8" | "u16le" | "u16be" | "u32le" | "u32be" | "i32le" | "i32be")));
+                let stringish = |k: &str, ty: &str| k == "txt" || (k == "f" && matches!(ty, "cstr" | "text" | "atext" | "lp8" | "oneoftext" | "ustr"));
+                let mut combos: Vec<Amp> = Vec::new();
+                for (c, (ck, cty, litlen)) in seen.iter().enumerate() {
+                    if !countish(ck, cty) {
+                        continue;
+                    }
+                    for r in c + 1 ..= (c + 8).min(seen.len().saturating_sub(1)) {
+                        if stringish(&seen[r].0, &seen[r].1) {
+                            for sub in 0 .. (*litlen).max(1) {
+                                combos.push(Amp { count: c, sub, repeat: r, fill: 48_000 });
+                            }
+                        }
+                    }
+                }
+                if combos.len() > max_positions * 4 {
+                    combos.shuffle(&mut rng);
+                    combos.truncate(max_positions * 4);
+                }
+                for a in combos {
+                    MUT.with(|p| {
+                        *p.borrow_mut() = Some(MutPlan {
+                            amp: Some(a),
+                            ..Default::default()
+                        })
+                    });
+                    let b = base_for(&mut StdRng::seed_from_u64(bseed), ctx, entry);
+                    let applied = MUT.with(|p| p.borrow_mut().take().unwrap().applied);
+                    if applied {
+                        run_case(&b, &json!({"stage":"structured","mutation":{"op":"amplify"},"count_item":a.count,"byte":a.sub,"repeat_item":a.repeat}), rep, trace, journal);
+                    }
+                }
+            }
             // truncation sweep: every prefix of every datagram (sampled beyond the first 96 bytes)
             for c in 0 .. base0.conns.len() {
                 for i in 0 .. base0.conns[c].1.len() {
